@@ -131,6 +131,10 @@ SCENARIOS = [
     ("hot-handle-emitters", "c", 2, 1, "r:%s" % A, ["e:0:1/e:0:2/e:0:3", "e:0:1/e:0:2/e:0:3", "e:0:5/a:%s:7" % A]),
     ("two-unregisters-vs-recreate", "c", 2, 1, "r:%s" % A, ["u:%s" % A, "u:%s" % A, "r:%s/e:1:1" % A]),
     ("hist-two-unregisters-vs-recreate", "h", 2, 1, "r:%s" % A, ["u:%s" % A, "u:%s" % A, "r:%s/e:1:1" % A]),
+    ("gauge-add-vs-set", "g", 2, 1, "r:%s" % A, ["e:0:1/e:0:2", "S:0:10", "e:0:4"]),
+    ("gauge-concurrent-sets", "g", 2, 1, "r:%s" % A, ["S:0:1", "S:0:2", "S:0:3/e:0:5"]),
+    ("gauge-last-slot", "g", 1, 1, "-", ["r:%s/e:0:1" % A, "r:%s/e:0:1" % B, "r:%s/S:0:7" % B]),
+    ("gauge-unregister-vs-add", "g", 2, 1, "r:%s" % A, ["e:0:1/e:0:2", "u:%s" % A, "r:%s/e:1:4" % A]),
     ("unbounded-creators", "c", -1, 1, "-", ["r:%s/e:0:1" % A, "r:%s/e:0:1" % B, "r:%s/e:0:1" % A]),
 ]
 
@@ -140,7 +144,7 @@ def conc_line(kind, cap, nl, rounds, noise, setup, progs, race=False):
 
 
 def gen_conc_random(rng, rounds, race=False):
-    kind = rng.choice("ccch")
+    kind = rng.choice("ccchg")
     nl = rng.choice([1, 1, 1, 2])
     pool = [A, B, C] if nl == 1 else [X1, X2, tup(b"ab", b"c"), tup(b"a", b"bc")]
     pool = rng.sample(pool, rng.randint(1, len(pool)))
@@ -296,6 +300,8 @@ def monitor(cap, obs):
         out.append("drift")
     if f.get("lost") != "0":
         out.append("lost")
+    if "SNAPVIOL" in obs.split(";"):
+        out.append("snapshot")          # a concurrent snapshot went backwards or showed more than cap series
     return out
 
 
